@@ -964,7 +964,10 @@ package builder
 // the farthest-failure record starts out as the position of offset 0 (known finding F8: it does not when
 // the input starts with a newline)
 //@   before parser.parseRuleWrap assert [far-canon C12] FarCanon(p)
-//@   before parser.parseRuleWrap assert [entry C01] startRule != nil && startRule.name == p.entrypoint && Inv(p) && p.pt.offset == 0
+//@   before parser.parseRuleWrap assert [entry C01 C08] startRule != nil && startRule.name == p.entrypoint && Inv(p) && p.pt.offset == 0
+// the start rule is evaluated through parseRuleWrap like every other rule invocation: that is where a left-recursive
+// leader is sent to the growth loop (C08: an entrypoint may itself be left-recursive)
+//@   must-call parser.parseRuleWrap [start-through-wrap C08 C01] if err == nil then rule == startRule
 //@   safety C11
 //@   frame C18
 
